@@ -903,7 +903,7 @@ def selection(env):
     chosen = []
     covered = set()
     for it in items:
-        if h64("c11-sel", seed, it[0]) % 8 == 0:
+        if h64("c11-sel", seed, it[0]) % 10 == 0:
             k = h64("c11-cfg", seed, it[0])
             mine = [cfgs[k % len(cfgs)], cfgs[(k // 7 + 1 + k % len(cfgs)) % len(cfgs)]]
             if mine[0] == mine[1]:
@@ -942,7 +942,7 @@ def run(env):
             env.count("enumerated_programs_done")
         # seeded bigger programs
         allc = G.configs_all()
-        for j in range(env.n(320, 1600)):
+        for j in range(env.n(240, 1600)):
             if env.out_of_time():
                 env.notes.append("time cap reached")
                 break
